@@ -651,7 +651,12 @@ func (r *Runner) txset(ctx context.Context, st *Step, ev *Event) error {
 func (r *Runner) confirmCancel(ctx context.Context, st *Step, ev *Event, confirm bool) error {
 	devFrom := r.ds.Dev.NumCalls()
 	r.cdeco.TakeModifies()
-	r.plan.Reset(0)
+	// a cancel can carry an injected fault like a TransactionSet (C07: the rollback calls the collaborators too)
+	ev.FailAt, ev.DevFail = st.FailAt, st.DevFail
+	r.plan.Reset(st.FailAt)
+	if st.DevFail {
+		r.ds.Dev.FailNext = errors.New("injected device failure")
+	}
 	cctx, cancel := context.WithTimeout(ctx, 3*time.Second)
 	defer cancel()
 	var err error
@@ -660,6 +665,7 @@ func (r *Runner) confirmCancel(ctx context.Context, st *Step, ev *Event, confirm
 	} else {
 		err = r.ds.D.TransactionCancel(cctx, st.ID)
 	}
+	r.ds.Dev.FailNext = nil
 	r.stamp(ev, false)
 	switch {
 	case err == nil:
